@@ -566,7 +566,7 @@ def _bag_callers(ctx, prog):
                    + ("that of another object" if owners else
                       "not the one stored with the trajectory"),
                    key=f"C06.6:bag:caller-frame-id:{q}")
-    ctx.require(n >= 2, "bag export call sites of evo_traj not found")
+    ctx.require(n >= 1, "bag export call sites of evo_traj not found")
 
 
 def _bag(ctx, prog):
